@@ -18,8 +18,10 @@ Has(tr, P(_)) == \E i \in 1..Len(tr.ev) : P(tr.ev[i])
 IsInc(e) == e.k = "inc"
 IsGen(e) == e.k = "gen"
 IsSoa(e) == e.k = "rr" /\ e.y = "SOA"
+IsBlank(e) == e.k = "rr" /\ e.owner[1] = "blank"
 Relevant(tr) ==
     (IF Has(tr, IsInc) THEN {"incOwner", "incTtl", "incIn"} ELSE {})
+    \cup (IF Has(tr, IsBlank) /\ (tr.cfg.api # "rrsets" \/ tr.cfg.fname = "") THEN {"blank0"} ELSE {})
     \cup (IF Has(tr, IsInc) /\ tr.cfg.inc = "dflt" /\ tr.cfg.incDoc = "text" /\ tr.cfg.dirs = <<"*">> THEN {"incDflt"} ELSE {})
     \cup (IF Has(tr, IsSoa) THEN {"soaDef", "soaOwn"} ELSE {})
     \cup (IF Has(tr, IsGen) THEN {"genOwner"} ELSE {})
